@@ -533,6 +533,11 @@ namespace
 	  if (dwarf_diecu (&die, &cudie, nullptr, nullptr) == nullptr)
 	    throw_libdw ();
 
+	  // libdw may leave an error code behind even when a call
+	  // succeeds.  Discard what is pending, so that the code
+	  // looked at below is that of the following call.
+	  dwarf_errno ();
+
 	  Dwarf_Files *files;
 	  size_t nfiles;
 	  if (dwarf_getsrcfiles (&cudie, &files, &nfiles) != 0)
@@ -634,6 +639,10 @@ namespace
 	      && (tag != DW_TAG_base_type
 		  || ! dwarf_hasattr_integrate (&type_die, DW_AT_encoding)))
 	    {
+	      // Discard whatever error code earlier calls left
+	      // behind: it is not about this DIE having no name.
+	      dwarf_errno ();
+
 	      char const *name = dwarf_diename (&type_die);
 	      if (name == nullptr)
 		{
